@@ -15,3 +15,11 @@ chk('C13','exploration',
  'Differential against the toolchain: Linux-typed MemFS vs path/filepath of the host, Windows-typed MemFS vs a copy of the toolchain\'s own Windows filepath code generated at setup; exhaustive over all strings up to length 4 (quick) / 5 (thorough) and all pairs up to length 2 / 3 over a 13-symbol alphabet, then seeded random inputs; PathIterator equations checked on all clean absolute paths up to 6/7 symbols with every splice.',
  'built with -tags avfs_setostype; Windows Abs only where lexical; reference = the toolchain that builds the harness (go1.23.5)',
  'toolchain differential, bounded-exhaustive + random','DESIGN.md §5 C13')
+chk('C10','exploration',
+ 'Lockstep of BasePathFS(base,B) against a standalone file system holding B\'s content, with a snapshot monitor (incl. mtimes) on everything outside B around every call and a canary/base-path search in every returned value and error text; adversarial operands (..-chains, B\'s own prefix, names that exist only outside B), absolute/relative/unclean paths, Chdir through the wrapper, all path-taking calls and File methods.',
+ 'bases MemFS and OrefaFS; symlink-free content; File.Name/Abs/temp names checked for leaks only; the root as operand of destructive calls left to C07',
+ 'outside-of-base snapshot monitor + canaries + reference-instance lockstep','DESIGN.md §5 C10')
+chk('C11','exploration',
+ 'Twin-instance lockstep: every call through a MemFS.Sub view (also nested views, views of /) is replayed on a twin parent with the dir-prefixed path as the same user/umask; outcomes must be equal and the full snapshots of both parents equal after every call; per-view SetUser/SetUMask/Chdir are followed by isolation assertions on the parent and a sibling view; parent-side changes are mixed in for visibility.',
+ 'symlink-free paths as the property states; Getwd/EvalSymlinks/temp names not compared; a failed RemoveAll ends the history (documented partial effect, map-order dependent)',
+ 'twin-instance differential + isolation assertions','DESIGN.md §5 C11')
